@@ -61,8 +61,18 @@ def valid_deliver(rng, seq):
     if use_payload:
         tl += smppref.tlv(0x0424, body or b'p')
         body = b''
+    def time_field():
+        k2 = rng.random()
+        if k2 < 0.6:
+            return b''
+        if k2 < 0.75:
+            return rng.choice([b'261001120000000+', b'000003000000000R', b'301231235959948-', b'260229120000000+'])
+        # malformed: wrong length, missing sign, letters, out-of-range parts
+        return rng.choice([b'261001120000000', b'26100112000000', b'2610011200000004+', b'26100112000000x+', b'261301120000000+', b'261001250000000+',
+                           b'2610011200000099+', b'R', b'+', b'            0000', b'26100112000000 0+', b'-61001120000000+'])
     return smppref.encode_sm(5, seq, service_type=rng.choice([b'', b'CMT']), src_ton=rng.choice([0, 1, 5]), src_npi=rng.choice([0, 1]), src=b'385991',
                              dst_ton=1, dst_npi=1, dst=b'1234', esm_class=esm, protocol_id=0, priority_flag=0, data_coding=dc,
+                             schedule=time_field(), validity=time_field(),
                              registered_delivery=0, short_message=body[:254], tlvs=tl)
 
 
@@ -279,7 +289,7 @@ def run(ctx):
     ctx.assumptions = ['stdlib text codecs (data_coding 5,6,7,9,10,13,14) raise only UnicodeDecodeError (checked by the oracle, outside the model)']
     proved = ctx.prove('C05', THEOREMS)
     rng = ctx.rng
-    n = 4000 if ctx.thorough else 450
+    n = 12000 if ctx.thorough else 450
     cases = []
     for i in range(n):
         chunks, kinds, eof, default = gen_stream(rng, ctx.thorough)
